@@ -68,6 +68,7 @@ let iopc_s = function
   | IoTop -> "Top" | IoR2 -> "R2" | IoR3 -> "R3" | IoR4 -> "R4" | IoW1 -> "W1" | IoW2 -> "W2" | IoW3 -> "W3"
   | IoSel -> "Sel" | IoM1 -> "M1" | IoM2 -> "M2" | IoHR -> "HR" | IoHRc1 -> "HRc1" | IoHRc2 -> "HRc2" | IoEof -> "Eof"
   | IoRC0 -> "RC0" | IoRC1 -> "RC1" | IoRC2 -> "RC2" | IoRCloop -> "RCloop" | IoRClen -> "RClen"
+  | IoRCapp -> "RCapp" | IoRCappX -> "RCappX"
   | IoRCadd -> "RCadd" | IoRCrel -> "RCrel" | IoHW0 -> "HW0" | IoHW1 -> "HW1"
   | IoHW1b -> "HW1b" | IoHW2 -> "HW2" | IoHW3 -> "HW3" | IoHW4 -> "HW4" | IoHW5 -> "HW5" | IoDead -> "Dead"
 
@@ -144,7 +145,7 @@ let good_of = function "full" -> all_kinds | "partial" -> covered | s -> failwit
 let do_monitor which labs = b01 (monitor (good_of which) (List.map label_of labs))
 
 (* ---- candidate invariants (boolean transcription of Proof/ChanCloseInv.v) ----------- *)
-let io_holds = function IoRC1 | IoRC2 | IoRCloop | IoRClen | IoRCadd | IoRCrel -> true | _ -> false
+let io_holds = function IoRC1 | IoRC2 | IoRCloop | IoRCapp | IoRCappX | IoRClen | IoRCadd | IoRCrel -> true | _ -> false
 let wk_holds = function
   | WClose1 _ | WClose2 _ | WClose3 _ | WKeep1 _ | WKeep2 _ | WKeep3 _ | WKeepAdd _ | WKeepE _ | WKeep5 _ -> true
   | _ -> false
@@ -166,7 +167,7 @@ let invariants (s : state) : (string * bool) list =
   let sd_mid = s.sd <> SdIdle in
   let tokens = ni s.queue + count active + (if io_token then 1 else 0) + (if sd_mid then 1 else 0) in
   let flags_ok = s.cwf || (s.wc && s.io <> IoRC2) || s.io = IoHW3 in
-  let closed = flags_ok && not (s.io = IoRCloop || s.io = IoRClen || s.io = IoRCadd) && ni s.queue = 0
+  let closed = flags_ok && not (s.io = IoRCloop || s.io = IoRCapp || s.io = IoRCappX || s.io = IoRClen || s.io = IoRCadd) && ni s.queue = 0
                && not (exists (fun pc -> match pc with WKeepAdd _ | WPopped -> true | _ -> false))
                && (s.reqs = [] || exists (fun pc -> match pc with WClose2 _ -> true | _ -> false)) in
   [ "lock_io", (s.rlock = Some ByIO) = io_holds s.io;
